@@ -225,9 +225,14 @@ def _saw(env, s, b, napp, perf, table=None, timeout=2, enc="float", inner_kind="
             order.append(p[0])
     per = {i: sum(1 for p in pairs if p[0] == i) for i in order}
     navail = {i: sum(1 for (j, a) in s.avail if j == i) for i in order}
-    if all(navail[i] >= napp for i in order):
-        full = [i for i in order[:-1]]
-        env.prove(all(per[i] == napp for i in full), "annotators_per_sample_respected", info=dict(pairs=pairs, requested=napp))
+    # an array-like request gives the number for the k-th selected sample; its last entry is used for all further samples
+    def req(k):
+        if isinstance(napp, (list, tuple)):
+            return napp[k] if k < len(napp) else napp[-1]
+        return napp
+    if all(navail[i] >= req(k) for k, i in enumerate(order)):
+        env.prove(all(per[i] == req(k) for k, i in enumerate(order[:-1])), "annotators_per_sample_respected",
+                  info=dict(pairs=pairs, requested=napp))
     return pairs
 
 
@@ -333,6 +338,10 @@ def _cfg_saw(tier):
     # integer label matrix with the sentinel -1
     for cmode, amode in ((("none", "none"),) if tier == "quick" else (("none", "none"), ("idx", "idx"), ("rows", "matrix"))):
         out.append(dict(n=2, A=2, cmode=cmode, amode=amode, b=2, napp=1, perf=None, enc="int"))
+    # three samples x two annotators: an array-valued request shorter than the number of selected samples, and a batch
+    # larger than n_annotators * len(annotators) with annotator indices (n_samples != n_annotators)
+    out.append(dict(n=3, A=2, cmode="none", amode="none", b=5, napp=[2, 1], perf=None))
+    out.append(dict(n=3, A=2, cmode="none", amode="idx", b=4, napp=1, perf=None))
     # a wrapped strategy without classifier arguments (RandomSampling)
     for cmode, amode in ((("none", "none"), ("idx", "idx")) if tier == "quick" else
                          [(c, a) for c in ("none", "idx", "rows") for a in ("none", "idx", "matrix")]):
